@@ -548,7 +548,7 @@ func checkRetryableSkipped(c *Ctx) {
 			R.Check(dirty == "", "R09.2", key, call.Pos(), fn, "a retryable error leads back to the read with no write to run state", "the retryable edge is not a pure skip: "+dirty)
 		}
 	}
-	R.Floor("R09.2:retry-edges", n, 3)
+	R.Floor("R09.2:retry-edges", n, 2)
 }
 
 // checkRetryablePredicate: CheckProbeRetryable ⇔ errors.As(NoPkt) ∨ errors.As(BadPkt).
